@@ -11,7 +11,7 @@
   R-C09-custom-message   every arm that builds Messages takes custom_message from the matched record
 Not claimed: the content of `checks` for arbitrary programs; rules sharing one name.
 """
-from engine import ai, mirlib as M
+from engine import flow, ai, mirlib as M
 from engine import statusmon as S
 from engine.statusmon import Mon
 
@@ -458,18 +458,18 @@ def every_rules_file_kept(ctx):
     removers = ("dedup", "dedup_by", "dedup_by_key", "retain", "retain_mut", "remove", "swap_remove", "truncate", "drain", "pop", "clear", "split_off")
     hits = []
     n_push = 0
-    for k in [EX] + sorted(x for x in cr.fns if x.startswith(EX + "::{closure")):
-        f = cr.fns.get(k)
-        if not f:
-            ctx.lost(rule, rule + ":no-file-dropped", EX)
-            return
+    if EX not in cr.fns:
+        ctx.lost(rule, rule + ":no-file-dropped", EX)
+        return
+    for k in flow.unit_functions(cr, EX, ("commands::validate::",)):
+        f = cr.fns[k]
         for bi, t in M.iter_calls(f):
             p = M.norm_path(t["fn"].get("path", ""))
             if p.startswith("std::vec::Vec::") and p.split("::")[-1] in removers:
                 hits.append("%s (l.%s)" % (p.split("::")[-1], t.get("ln")))
             if p.startswith("std::vec::Vec::") and p.split("::")[-1] in ("push", "extend", "append"):
                 n_push += 1
-    ctx.ob(rule, rule + ":no-file-dropped", not hits and n_push >= 3, ("Validate::execute applies %s to a collected list: a rules / data file that was named on the command line is silently not evaluated" % hits) if hits
+    ctx.ob(rule, rule + ":no-file-dropped", not hits and n_push >= 1, ("Validate::execute applies %s to a collected list: a rules / data file that was named on the command line is silently not evaluated" % hits) if hits
            else "the lists of rules and data files are only extended (%d push/extend sites, no removal)" % n_push, fn=cr.fns[EX])
 
 
